@@ -7,7 +7,7 @@ allvars == <<sc, path, t, fin, out>>
 CNeg1 == -1
 Steady(id) == CASE id = "L1" -> <<R(2)>> [] id = "L2" -> <<R(2)>> [] id = "L3" -> <<RZero, RZero>>
                 [] id = "L6" -> <<RZero, R(1)>> [] id = "L9" -> <<R(-2)>> [] id = "L4" -> <<R(2)>> [] id = "L10" -> <<R(2), R(2)>>
-                [] id = "L11" -> <<RZero, RZero>>
+                [] id = "L11" -> <<RZero, RZero>> [] id = "L12" -> <<R(-2), R(1), R(-4)>>
 \* the steady state is a path: the level above in period 0 and a change per period (zero unless the model grows)
 Growth(id) == IF id = "L11" THEN <<Q(1, 2), R(1)>> ELSE RZeroVec(Len(Model(id).vars))
 SteadyAt(id, k) == [i \in 1..Len(Model(id).vars) |-> RAdd(Steady(id)[i], RMul(R(k), Growth(id)[i]))]
@@ -56,7 +56,8 @@ Step == /\ t < TN /\ ~fin
                                 cont |-> [j \in 1..2 |-> Expect(sc.id, x, Prof(sc.id, sc.a), TN, j, sc.dev)],
                                 breaks |-> {1} \cup {s \in 1..TN : \E j \in 1..Len(Model(sc.id).shocks) : Prof(sc.id, sc.u)[s][j] # RZero},
                                 meas |-> [k \in 1..TN |-> MeasAt(sc.id, np, WProf(sc.id), k, sc.dev)],
-                                nunstable |-> Len(SelectSeq(Model(sc.id).roots, LAMBDA r : RLt(ROne, RAbsQ(r)))), fwd |-> Model(sc.id).fwd]
+                                nunstable |-> Len(SelectSeq(Model(sc.id).roots, LAMBDA r : RLt(ROne, RAbsQ(r))))
+                                              + 2 * Len(SelectSeq(CQuads(Model(sc.id)), LAMBDA c : RLt(ROne, c[2]))), fwd |-> Model(sc.id).fwd]
         /\ t' = t + 1 /\ fin' = (t + 1 = TN) /\ UNCHANGED sc
 Next == Step
 Spec == Init /\ [][Next]_allvars
@@ -77,6 +78,9 @@ Inv_Stable == t = 0 => IF sc.id \in GrowthIds
     THEN \A i \in 1..Len(Model(sc.id).T) : (\A j \in (i + 1)..Len(Model(sc.id).T) : Model(sc.id).T[i][j] = RZero) /\ ~RLt(ROne, RAbsQ(Model(sc.id).T[i][i]))
     ELSE \A i \in 1..Len(Model(sc.id).T) : RLt(RSumSeq([j \in 1..Len(Model(sc.id).T) |-> RAbsQ(Model(sc.id).T[i][j])], 1), Q(21, 20))
 
+\* a pair certified as complex-conjugate is one: the discriminant of its block is negative
+Inv_ComplexPairs == t = 0 => \A i \in 1..Len(CQuads(Model(sc.id))) :
+    LET c == CQuads(Model(sc.id))[i] IN RLt(RMul(c[1], c[1]), RMul(R(4), c[2]))
 \* what the harness needs of the final state
 View == <<sc, path, t, fin>>
 Meas(s) == MeasAt(sc.id, path, WProf(sc.id), s, sc.dev)
